@@ -13,6 +13,7 @@ import GunYu.Proofs.TargetSeq
 import GunYu.Proofs.Parser
 import GunYu.Proofs.EndToEnd
 import GunYu.Proofs.Restart
+import GunYu.Proofs.Nested
 
 namespace GunYu.Props.C01
 open GunYu GunYu.Sender GunYu.Target
@@ -388,6 +389,69 @@ example : (seqApplied 0 (dataOut (run exCfg initS (exEvs ++ [.done])).2)).2 =
       { db := 1, name := [115,101,116], args := [[98],[118]] },
       { db := 1, name := [115,101,116], args := [[99],[118]] } ] := by decide +kernel
 
+/-! ### The same with hypotheses on the SOURCE stream only -/
+
+theorem noNested_of_items (b : Bool) (evs : List Ev) (h : ItemsNoNested b (itemsOf evs)) :
+    NoNested b evs := by
+  induction evs generalizing b with
+  | nil => trivial
+  | cons ev rest ih =>
+    cases ev with
+    | item it =>
+      simp only [itemsOf, ItemsNoNested] at h
+      simp only [NoNested]
+      split
+      · rename_i hm; rw [if_pos hm] at h; exact ⟨h.1, ih _ h.2⟩
+      · rename_i hm
+        rw [if_neg hm] at h
+        split
+        · rename_i he; rw [if_pos he] at h; exact ih _ h
+        · rename_i he; rw [if_neg he] at h; exact ih _ h
+    | batchTick => exact ih _ h
+    | keepaliveTick => exact ih _ h
+    | cpTick => exact ih _ h
+    | done => exact ih _ h
+
+/-- **End to end, hypotheses on the source only.** For any decoded source stream
+    whose SELECT arguments are non-negative and whose MULTI/EXEC are not nested
+    (what Redis propagates) and not removed by the user's command/key filters,
+    any filter / mapping configuration with real mapped databases, ticker mode,
+    and ANY schedule of ticks around the parser's output closed by `done`: the
+    target has executed exactly `specStream`. -/
+theorem end_to_end_ticker_src (pc : PCfg) (sc : SCfg) (hsc : sc.txnMode = false)
+    (raws : List Raw) (evs : List Ev)
+    (start : Int) (hitems : itemsOf evs = parseAll pc { lastSent := start } raws)
+    (hnd : NoDone evs)
+    (hsel : ∀ r ∈ raws, r.cmd = bSelect → ∀ a n, r.args = [a] → atoi? a = some n → 0 ≤ n)
+    (hmap : ∀ n : Int, 0 ≤ n → mapDb pc n ≠ -1)
+    (hraw : RawNoNested false raws)
+    (hpass : ∀ r ∈ raws, (r.cmd = bMulti ∨ r.cmd = bExec) →
+      pc.filterCmd r.cmd = false ∧ (pc.filterCmdKey r.cmd r.args).isSome)
+    (t : TState) (hq : t.queued = none) :
+    (applyLog t (run sc initS (evs ++ [.done])).2.flatten).applied =
+      t.applied ++ specStream pc false t.cur raws :=
+  end_to_end_ticker pc sc hsc raws evs start hitems hnd
+    (noNested_of_items _ evs (by
+      rw [hitems]; exact parseAll_noNested pc raws { lastSent := start } false rfl hraw hpass))
+    hsel hmap t hq
+
+/-- the prefix version for every mode and every moment, hypotheses on the source only -/
+theorem executed_prefix_of_spec_src (pc : PCfg) (sc : SCfg) (raws : List Raw) (evs : List Ev)
+    (start : Int) (hitems : itemsOf evs = parseAll pc { lastSent := start } raws)
+    (hnd : NoDone evs)
+    (hsel : ∀ r ∈ raws, r.cmd = bSelect → ∀ a n, r.args = [a] → atoi? a = some n → 0 ≤ n)
+    (hmap : ∀ n : Int, 0 ≤ n → mapDb pc n ≠ -1)
+    (hraw : RawNoNested false raws)
+    (hpass : ∀ r ∈ raws, (r.cmd = bMulti ∨ r.cmd = bExec) →
+      pc.filterCmd r.cmd = false ∧ (pc.filterCmdKey r.cmd r.args).isSome)
+    (t : TState) (hq : t.queued = none) :
+    ∃ rest, t.applied ++ specStream pc false t.cur raws =
+      (applyLog t (run sc initS evs).2.flatten).applied ++ rest :=
+  executed_prefix_of_spec pc sc raws evs start hitems hnd
+    (noNested_of_items _ evs (by
+      rw [hitems]; exact parseAll_noNested pc raws { lastSent := start } false rfl hraw hpass))
+    hsel hmap t hq
+
 /-! Non-vacuity of the end-to-end theorem: db 1 filtered, db 2 mapped to 5,
     `flushall` blacklisted, keys starting with 'x' rejected -/
 def e2ePc : PCfg :=
@@ -418,6 +482,8 @@ example : specStream e2ePc false 0 e2eRaws =
       { db := 5, name := [100,101,108], args := [[98]] },
       { db := 0, name := [115,101,116], args := [[100],[52]] } ] := by decide +kernel
 example : itemsOf e2eEvs = parseAll e2ePc {} e2eRaws := by decide +kernel
+example : RawNoNested false e2eRaws := by
+  simp [RawNoNested, e2eRaws, bSelect, bMulti, bExec, bPing]
 example : (applyLog {} (run exCfg initS (e2eEvs ++ [.done])).2.flatten).applied =
     specStream e2ePc false 0 e2eRaws := by decide +kernel
 
